@@ -385,7 +385,7 @@ def run(ctx):
                 lays = layouts if not quick else [layouts[(ai + n + ctx.seed) % 2]]
                 for lay in lays:
                     jobs.append((coll, algo, n, lay))
-    tmo = 60 if quick else 120
+    tmo = 25 if quick else 45            # a run takes 0.1 .. 2 s; hangs of known-defective algorithms cost this much
 
     def do_job(jn):
         j, (coll, algo, n, lay) = jn
@@ -417,11 +417,12 @@ def run(ctx):
                 bar_key.append((algo, n, lay, i))
     bar_ok = dict(zip(bar_key, tlc_barriers(ctx, bar_obs)))
 
-    # ---- compare
+    # ---- compare (Python only compares with what TLC computed)
     stats = {"ok": 0, "declined": 0, "wrong": 0, "crash": 0, "hang": 0}
     declined = {}
-    seen_sig = {}
-    for (coll, algo, n, lay), per_case in zip(jobs, results):
+    cand = {}        # signature -> first failing (job, case id, kind, what, buffers)
+    nfail = {}
+    for jn, ((coll, algo, n, lay), per_case) in enumerate(zip(jobs, results)):
         for i, (st, bufs, bars, msg) in per_case.items():
             c = cases[i]
             key = {"coll": coll, "algo": algo, "np": n, "layout": lay, "case": case_brief(c)}
@@ -458,37 +459,55 @@ def run(ctx):
                 continue
             stats[kind] += 1
             sig = "C29:%s:%s:%s:%s:%s" % (coll, algo, np_class(n), count_class(c), kind)
-            seen_sig[sig] = seen_sig.get(sig, 0) + 1
-            if seen_sig[sig] > 1:
-                continue     # same (collective, algorithm, np class, kind): counted in `results`, reported once
-            # a rejection is reported only if running the same case again fails again
-            r2 = run_cases(ctx, "re_%s_%s_%d_%d" % (coll, algo, n, i), coll, algo, n, lay, [i], cases, 4 * tmo)
-            if r2["status"] == "ok":
-                again = compare(c, exp[i], r2["bufs"].get(i, {})) if coll != "barrier" else "barrier"
-                if coll == "barrier":
-                    b2 = r2["bars"].get(i, {})
-                    again = None
-                    if len(b2) == n:
-                        okb = tlc_barriers(ctx, [{"enter": [b2[r][0] for r in range(n)], "leave": [b2[r][1] for r in range(n)]}])
-                        again = None if okb[0] else "barrier"
-                    else:
-                        again = "barrier"
-                if again is None:
-                    stats[kind] -= 1
-                    seen_sig[sig] -= 1
-                    ctx.cov["unconfirmed"] = ctx.cov.get("unconfirmed", 0) + 1
-                    continue
-            ctx.violation("%s algorithm '%s' on %d ranks (%s hosts), root %d, count %d, op %s: %s" %
-                          (coll, algo, n, lay, c["root"], c["count"], c["op"], what),
-                          files={"cases.txt": case_to_txt(i, c), "case.json": json.dumps(spec_case(c)),
-                                 "expected.json": json.dumps(exp[i]),
-                                 "got.json": json.dumps({str(r): list(v[1]) for r, v in bufs.items()}),
-                                 "hosts": "\n".join(hostfile(n, lay)) + "\n",
-                                 "howto.txt": "smpirun -np %d -platform small_platform.xml -hostfile hosts --cfg=smpi/host-speed:1f "
-                                              "%s .build/harness/mpi_coll cases.txt  (VERIF_COLLOUT=out.txt); expected buffers: TLC on "
-                                              "spec/mpi/MpiColl.tla with CASES=[case.json]\n" %
-                                              (n, "" if algo == "builtin" else "--cfg=smpi/%s:%s" % (coll, algo))},
-                          signature=sig, detail=json.dumps(case_brief(c)))
+            nfail[sig] = nfail.get(sig, 0) + 1
+            cand.setdefault(sig, []).append((jn, i, kind, what, bufs))
+
+    # a failure is reported (once per signature) only if running the same case again fails again; up to three
+    # occurrences of a signature are tried
+    def confirm(item):
+        sig, occ = item
+        for jn, i, kind, what, bufs in occ[:3]:
+            coll, algo, n, lay = jobs[jn]
+            c = cases[i]
+            r2 = run_cases(ctx, "re_%d_%d" % (jn, i), coll, algo, n, lay, [i], cases, 4 * tmo)
+            if r2["status"] == "declined":
+                continue
+            if r2["status"] != "ok":
+                return sig, (jn, i, kind, what, bufs)
+            if coll == "barrier":
+                b2 = r2["bars"].get(i, {})
+                if len(b2) != n:
+                    return sig, (jn, i, kind, what, bufs)
+                return sig, (jn, i, kind, what, bufs, {"enter": [b2[r][0] for r in range(n)], "leave": [b2[r][1] for r in range(n)]})
+            if refused_by_code(c, r2["bufs"].get(i, {})) is None and compare(c, exp[i], r2["bufs"].get(i, {})):
+                return sig, (jn, i, kind, what, bufs)
+        return sig, None
+
+    confirmed = vlib.parallel_map(confirm, sorted(cand.items()))
+    rebar = [(sig, x) for sig, x in confirmed if x is not None and len(x) == 6]
+    rebar_ok = tlc_barriers(ctx, [x[5] for _, x in rebar])
+    still_bad = {sig for (sig, x), ok in zip(rebar, rebar_ok) if not ok}
+    failing = {}
+    for sig, x in confirmed:
+        if x is None or (len(x) == 6 and sig not in still_bad):
+            ctx.cov["unconfirmed"] = ctx.cov.get("unconfirmed", 0) + 1
+            continue
+        jn, i, kind, what, bufs = x[:5]
+        coll, algo, n, lay = jobs[jn]
+        c = cases[i]
+        failing[sig] = nfail[sig]
+        ctx.violation("%s algorithm '%s' on %d ranks (%s hosts), root %d, count %d, op %s: %s" %
+                      (coll, algo, n, lay, c["root"], c["count"], c["op"], what),
+                      files={"cases.txt": case_to_txt(i, c), "case.json": json.dumps(spec_case(c)),
+                             "expected.json": json.dumps(exp[i]),
+                             "got.json": json.dumps({str(r): list(v[1]) for r, v in bufs.items()}),
+                             "hosts": "\n".join(hostfile(n, lay)) + "\n",
+                             "howto.txt": "smpirun -np %d -platform small_platform.xml -hostfile hosts --cfg=smpi/host-speed:1f "
+                                          "%s .build/harness/mpi_coll cases.txt  (VERIF_COLLOUT=out.txt); expected buffers: TLC on "
+                                          "spec/mpi/MpiColl.tla with CASES=[case.json]\n" %
+                                          (n, "" if algo == "builtin" else "--cfg=smpi/%s:%s" % (coll, algo))},
+                      signature=sig, detail=json.dumps(case_brief(c)))
+    ctx.cov["failing_signatures"] = failing
     ctx.cov["results"] = stats
     ctx.cov["declined"] = {k: sorted(v) for k, v in sorted(declined.items())}
     ctx.cov["smpi_runs"] = len(jobs)
